@@ -723,11 +723,43 @@ def op_encode(step, ctx):
     return out
 
 
+def op_attr(step, ctx):
+    """One attribute of the shapes enumerated by spec/AttrEncoder.tla, built and written on its own."""
+    from dliswriter.logical_record.core.attribute import Attribute, NumericAttribute
+    from dliswriter.utils.internal.internal_enums import RepresentationCode
+    out = []
+    for c in step['cases']:
+        ev = {'op': 'attr', 'mv': c['mv'], 'md': c['md'], 'given': c['given'], 'units': c['units'], 'code': c['code'],
+              'kind': c['kind'], 'rejected': False, 'bytes': []}
+        try:
+            kw = {'multivalued': c['mv'], 'multidimensional': c['md']}
+            if c['code'] == 'explicit':
+                kw['representation_code'] = RepresentationCode.USHORT if c['kind'] == 'numeric' else RepresentationCode.ASCII
+            a = (NumericAttribute if c['kind'] == 'numeric' else Attribute)('label', **kw)
+            x = 7 if c['kind'] == 'numeric' else 'seven'
+            val = {'none': None, 'scalar': x, 'empty': [], 'one': [x], 'two': [x, x], 'many': [x] * 130, 'nested': [[x, x], [x, x]]}[c['given']]
+            try:
+                if c['given'] != 'none':
+                    a.value = val
+            except Exception as e:  # noqa
+                ev['rejected'] = True
+                ev['exc'] = exc_text(e)
+            if c['units']:
+                a.units = 'm'
+            ev['bytes'] = blist(b'\x00' if a.value is None else a.get_as_bytes())
+            ev['outcome'] = 'ok'
+        except Exception as e:  # noqa
+            ev['outcome'] = 'raised'
+            ev['exc'] = exc_text(e)
+        out.append(ev)
+    return out
+
+
 def op_mark(step, ctx):
     return [{'op': 'mark', 'what': step.get('what', ''), 'outcome': 'ok', 'hc': hc_flag()}]
 
 
-OPS = {'mark': op_mark, 'lowwrite': op_lowwrite, 'new_file': op_new_file, 'add_lf': op_add_lf, 'add': op_add, 'set': op_set,
+OPS = {'mark': op_mark, 'attr': op_attr, 'lowwrite': op_lowwrite, 'new_file': op_new_file, 'add_lf': op_add_lf, 'add': op_add, 'set': op_set,
        'nofmt_data': op_nofmt_data, 'hc_enter': op_hc, 'hc_exit': op_hc, 'hc_exit_exc': op_hc,
        'hc_decorated': op_hc_decorated, 'write': op_write, 'encode': op_encode}
 
